@@ -187,8 +187,8 @@ class ZipReader(AbstractReader):
                 'source MIB %s, mtime %s, read from %s/%s' % (mibfile, time.strftime("%a, %d %b %Y %H:%M:%S GMT", time.gmtime(mtime)), self._name, mibfile)
             )
 
-            if len(mibData) == self.maxMibSize:
-                raise IOError('MIB %s/%s too large' % (self._name, mibfile))
+            if len(mibData) >= self.maxMibSize:
+                raise error.PySmiReaderError('MIB %s/%s too large' % (self._name, mibfile), reader=self)
 
             return MibInfo(path='zip://%s/%s' % (self._name, mibfile),
                            file=mibfile, name=mibalias, mtime=mtime), decode(mibData)
